@@ -1,6 +1,7 @@
 import GB.C08.Proofs
 import GB.C08.MimeProofs
 import GB.C08.HandoffProofs
+import GB.C08.ConnProofs
 import GB.Generated.Facts
 /-
   C08 — gRPC-Web framing is lossless and always ends with exactly one status trailer.
@@ -339,6 +340,65 @@ theorem C08_ws_readloop_released (cs : Bool) (s : St) (h : GB.LTS.Reachable (ste
     ∃ ls s', (∀ l ∈ ls, readerLbl l = true) ∧ GB.LTS.run (step cs) s ls = some s' ∧ s'.panicked = false ∧
       (s'.reader = Reader.exited ∨ (s'.reader = Reader.idle ∧ s'.pending = [])) :=
   released_aux cs (measure s) s (inv_reachable cs s h) hd (Nat.le_refl _)
+
+/-! ### the end of a gRPC-WebSocket call at connection level (fix D32: graceful close) -/
+
+/-- facts: no hard close (`gws.Conn.WriteClose` = close frame + immediate TCP close) is left in the WebSocket bridges,
+    both closing paths go through `closeGracefully`, and the close timeout is the 3 s the harness bounds against -/
+theorem C08_facts_graceful_close :
+    GB.Generated.wsWriteCloseCalls = 0 ∧ GB.Generated.wsGracefulCloseCallers = ["sendTrailer", "ServeHTTP"] ∧
+    GB.Generated.wsCloseTimeoutMs = 3000 := by
+  decide
+
+open GB.C08.Conn in
+/-- With the graceful close, in EVERY execution (any client writes, parking of the read loop, delivery and read
+    timing): nothing of the response is ever dropped unless the close timeout fired, and whenever the connection is
+    closed without the timeout having fired, the client has read the complete response — every message
+    (`[header] data* trailer`) in order and then the close frame. A client that keeps reading and answers the close
+    frame never sees less. -/
+theorem C08_ws_tail_delivered (frames : List Bytes) (s : St)
+    (h : GB.LTS.Reachable (step Mode.graceful) (init frames) s) :
+    (s.deadline = false → s.lost = false ∧ s.got ++ s.cq ++ s.sq ++ s.towrite = script frames) ∧
+    (s.tcpClosed = true → s.deadline = false → s.got = script frames ∧ s.lost = false) := by
+  have inv := inv_reachable frames s h
+  have hnl : s.deadline = false → s.lost = false := by
+    intro hd
+    cases hl : s.lost with
+    | false => rfl
+    | true => have := inv.lostd hl; simp [hd] at this
+  refine ⟨fun hd => ⟨hnl hd, inv.cons (hnl hd)⟩, fun ht hd => ⟨?_, hnl hd⟩⟩
+  rcases inv.tc ht with hr | hdl
+  · have hc := inv.crep (inv.rr hr).2
+    have hcons := inv.cons (hnl hd)
+    rw [List.append_assoc, List.append_assoc] at hcons
+    exact (got_complete frames s.got _ hcons hc).1
+  · simp [hd] at hdl
+
+open GB.C08.Conn in
+/-- Termination within the bound: once the close frame is written, the handler's way out never depends on the
+    client — the deadline can fire and the connection then be closed, whatever the client does or does not do. -/
+theorem C08_ws_close_bounded (frames : List Bytes) (s : St)
+    (h : GB.LTS.Reachable (step Mode.graceful) (init frames) s) (hc : s.closeSent = true) (ht : s.tcpClosed = false) :
+    ∃ s', GB.LTS.run (step Mode.graceful) s [Lbl.timeout, Lbl.srvTcpClose] = some s' ∧ s'.tcpClosed = true := by
+  refine ⟨tcpClose { s with deadline := true }, ?_, rfl⟩
+  simp [GB.LTS.run, step, hc, ht]
+
+open GB.C08.Conn in
+/-- What fix D32 removed, kernel-evaluated on the original order (write the close frame and close the connection at
+    once): one client message is still unread when the bridge ends the call; the data frame and the trailer are in the
+    send queue; the abortive close drops them — the client never gets the trailer, whatever it does afterwards (nothing
+    is left to deliver); the same schedule under the graceful close delivers everything. -/
+theorem C08_ws_original_hard_close_loses_trailer :
+    (GB.LTS.run (step Mode.hard) (init [[0, 0, 0, 0, 1, 7], [128, 0, 0, 0, 0]])
+        [Lbl.cliWrite, Lbl.srvRead, Lbl.park, Lbl.cliWrite, Lbl.srvWrite, Lbl.srvWrite, Lbl.srvCloseFrame, Lbl.closeDone]).map
+      (fun s => (s.got, s.cq, s.sq, s.lost, s.tcpClosed)) = some ([], [], [], true, true) ∧
+    (GB.LTS.run (step Mode.graceful) (init [[0, 0, 0, 0, 1, 7], [128, 0, 0, 0, 0]])
+        [Lbl.cliWrite, Lbl.srvRead, Lbl.park, Lbl.cliWrite, Lbl.srvWrite, Lbl.srvWrite, Lbl.srvCloseFrame, Lbl.closeDone,
+         Lbl.srvRead, Lbl.deliver, Lbl.deliver, Lbl.deliver, Lbl.cliRead, Lbl.cliRead, Lbl.cliRead, Lbl.cliReply,
+         Lbl.srvReadReply, Lbl.srvTcpClose]).map
+      (fun s => (s.got, s.lost, s.tcpClosed)) =
+        some ([Item.frame [0, 0, 0, 0, 1, 7], Item.frame [128, 0, 0, 0, 0], Item.close], false, true) := by
+  refine ⟨?_, ?_⟩ <;> decide
 
 /-! ### non-vacuity -/
 
